@@ -370,7 +370,12 @@ class Built(object):
         built = self
         name = md['name']
 
+        nargs = len(md['args']) if md['style'] != 'bare' else 1
+
         def fn(ctx, *args):
+            if len(args) != nargs:
+                # what a function with a fixed parameter list does
+                raise TypeError('%s() takes %d positional arguments but %d were given' % (name, nargs + 1, len(args) + 1))
             built.calls.append((name, args, ctx))
             if name in built.out_headers:
                 ctx.out_header = built.out_headers[name]
